@@ -65,7 +65,7 @@ POINTS = {
                       "raise ValueError(\"Invalid input: Values in 'x'"),
 }
 REQUIRED_POINTS = list(POINTS)
-REQUIRED_CLAUSES = ["independent-of-other-instances", "history.answers==fresh-object", "passes-through-points", "value==exact-interpolant",
+REQUIRED_CLAUSES = ["independent-of-other-instances", "history.answers==fresh-object", "copies-independent", "passes-through-points", "value==exact-interpolant",
                     "derivative==exact", "forms-and-order-agree",
                     "refuse.outside-table", "refuse.duplicate-abscissa",
                     "root.found-inside-limits", "root.residual",
@@ -636,6 +636,37 @@ def case_objhistory(mon, seedval):
         if not ok:
             return
     mon.cls("object-with-history", ("hist", seedval), steps)
+    # a copy (constructor form and set() form) and its source, each re-loaded
+    # afterwards: the other one keeps answering as before
+    try:
+        xa, ya, _k = gen_table(rng)
+        xb, yb, _k = gen_table(rng)
+        sa = sorted(xa)
+        qs = [rng.uniform(sa[0], sa[-1]) for _ in range(3)]
+        for form in ("constructor", "set"):
+            mon.evals += 1
+            src = I(list(xa), list(ya))
+            if form == "constructor":
+                cpy = I(src)
+            else:
+                cpy = I([0.0, 1.0, 2.0], [3.0, -1.0, 4.0])
+                cpy.set(src)
+            c0 = _answers(cpy, qs)
+            src.set(list(xb), list(yb))
+            c1 = _answers(cpy, qs)
+            sb = sorted(xb)
+            q2 = [rng.uniform(sb[0], sb[-1]) for _ in range(3)]
+            s0 = _answers(src, q2)
+            cpy.set([0.0, 1.0, 2.0, 3.0], [1.0, -2.0, 0.5, 7.0])
+            s1 = _answers(src, q2)
+            mon.check("copies-independent", c1 == c0 and s1 == s0,
+                      lambda: {"seed": seedval, "form": form,
+                               "copy_before_and_after_source.set":
+                               [repr(c0)[:200], repr(c1)[:200]],
+                               "source_before_and_after_copy.set":
+                               [repr(s0)[:200], repr(s1)[:200]]})
+    except Exception as ex:
+        mon.dev("copies-independent", {"seed": seedval, "raised": repr(ex)})
 
 
 CASES = {"table": case_table, "root": case_root,
